@@ -665,7 +665,9 @@ class ResultsSuite(Suite):
 
     def _case_dir(self):
         self._case_no += 1
-        d = self.root / f"c{self._case_no}"
+        # legal directory names users give their outputs: some contain characters that mean something to glob / the shell
+        tail = ["", "", "", " run[2026]", " sweep*", " a?b", " [x", " {y}", " é", " 100%"][self._case_no % 10]
+        d = self.root / f"c{self._case_no}{tail}"
         d.mkdir()
         return d
 
